@@ -154,6 +154,10 @@ class Session:
                 self.net.remove_reaction(st["i"])
             elif kind == "set_allowed":
                 self.net.allowed_species = list(st["names"])
+            elif kind == "set_required":
+                self.net.required_species = list(st["names"])
+            elif kind == "set_rate_modifier":
+                self.net.rate_modifier = {int(k): v for k, v in st["values"].items()}
             elif kind == "shielding_inplace":
                 for k, v in st["values"].items():
                     self.net.shielding[k] = v
@@ -203,7 +207,12 @@ class Session:
                 else:
                     shutil.rmtree(out, ignore_errors=True)
                 self._last_render = (key, out)
-                tl = N.templateloader.TemplateLoader(st["solver"], st["method"], st["device"])
+                if st.get("reuse_loader"):
+                    # the user keeps one TemplateLoader per back-end and renders with it again
+                    loaders = self.__dict__.setdefault("_loaders", {})
+                    tl = loaders.get(key[:3]) or loaders.setdefault(key[:3], N.templateloader.TemplateLoader(st["solver"], st["method"], st["device"]))
+                else:
+                    tl = N.templateloader.TemplateLoader(st["solver"], st["method"], st["device"])
                 from pathlib import Path
 
                 os.makedirs(out, exist_ok=True)
